@@ -53,7 +53,7 @@ func init() {
 	register(&Property{
 		ID:    "C08",
 		Level: "exploration",
-		Rule: "scalar values and arrays (0-8 single-line elements) over a hostile alphabet (whitespace, quotes, $ @ ~ * ? ; | & {} [] () <> # backslash, &&, ${..}, @{..}, `-> cmd`, redirection tokens, control characters, non-ASCII; scalars also with embedded and trailing CR/LF) are stored through the Variables API and passed as `f $v`, `f a $v b`, `f @arr`, `f x @arr y` to a murex function (observed through $PARAMS), to `out`, and to an external argv echo; hook `exec` events list every command that actually ran; " +
+		Rule: "scalar values and arrays (0-8 single-line elements) over a hostile alphabet (whitespace, quotes, $ @ ~ * ? ; | & {} [] () <> # backslash, &&, ${..}, @{..}, `-> cmd`, redirection tokens, control characters, non-ASCII; scalars also with embedded and trailing CR/LF) are stored through the Variables API (under `c08v` / `c08arr` and, in a third of the cases, under other legal names including ones that start with a digit such as `0x2`, `1_0`, `2nd`) and passed as `f $v`, `f a $v b`, `f @arr`, `f x @arr y` to a murex function (observed through $PARAMS), to `out`, and to an external argv echo; hook `exec` events list every command that actually ran; " +
 			"oracle: exactly one argument per scalar (value, or value minus one trailing CR/LF), one per array element verbatim, no command outside the expected set; non-trivial = the value contains a murex metacharacter; distinct by (value, array)",
 		Assumptions: []string{"values are valid UTF-8 without NUL (argv cannot carry NUL; $PARAMS is JSON)", "array elements are single-line"},
 		Run: func(x *Ctx) {
@@ -99,12 +99,23 @@ func init() {
 					"c08pf pre$c08v second third\nout '" + sep + "'\n" +
 					// the same statement text executed twice (a function called twice)
 					"function c08g { c08pf q.x$1 z }\nc08g $c08v\nc08g $c08v\n"
+				// a third of the cases use other legal variable names: short, upper case, leading
+				// underscore, and names that start with a digit without being a positional parameter
+				vn, an := "c08v", "c08arr"
+				if i%3 == 2 {
+					rn := x.Rng("names", i)
+					vn = []string{"x", "_c08", "C08V", "v1", "0x2", "0b10", "1_0", "0o7", "2nd", "0xff"}[rn.Intn(10)]
+					an = []string{"arr", "_a", "ARR", "0x3", "1_1", "0b11", "3rd"}[rn.Intn(7)]
+					block = strings.ReplaceAll(strings.ReplaceAll(block, "$c08v", "$"+vn), "@c08arr", "@"+an)
+					x.SetAdd("variable_names", vn)
+					x.SetAdd("variable_names", an)
+				}
 				if ext == "argvecho" {
 					x.Count("cases_with_external_argv_echo", 1)
 				}
 				exp, _ := json.Marshal(c08Expect{V: v, Arr: arr, Sep: sep, Meta: hasMeta(v) || hasMeta(strings.Join(arr, ""))})
 				cases = append(cases, &proto.Case{ID: fmt.Sprintf("c08-%d", i), Op: "prog", Block: block, Events: true,
-					Vars:   []proto.Var{{Name: "c08v", Type: "str", Value: v}, {Name: "c08arr", Type: "json", Value: string(aj)}},
+					Vars:   []proto.Var{{Name: vn, Type: "str", Value: v}, {Name: an, Type: "json", Value: string(aj)}},
 					Expect: exp, TimeoutMs: 30000})
 			}
 			x.RunAll(pool, cases)
